@@ -9,22 +9,22 @@ cd "$WT" || exit 2
 [ -f patch.diff ] || { echo "no patch.diff"; exit 2; }
 git checkout -q -- src include
 git apply patch.diff || { echo "patch does not apply"; exit 2; }
-cmake --build _build -j16 2>&1 | tail -1
+cmake --build _build -j6 2>&1 | tail -1
 T=$(ctest --test-dir _build -j8 --timeout 900 2>&1 | grep -E "tests passed|tests failed" | tail -1)
 echo "WITH PATCH tests: $T"
-(cd demo && bash build.sh > /tmp/demo_build.log 2>&1); DEMO=$(ls demo/demo 2>/dev/null || ls demo/*.out 2>/dev/null | head -1)
-[ -x "$DEMO" ] || { echo "demo did not build"; tail -5 /tmp/demo_build.log; exit 2; }
-(cd demo && timeout 900 ./$(basename $DEMO) > /tmp/demo_with.log 2>&1); RC1=$?
-echo "WITH PATCH demo exit=$RC1 : $(tail -1 /tmp/demo_with.log)"
+(cd demo && bash build.sh > $WT/.demo_build.log 2>&1); DEMO=$(ls demo/demo 2>/dev/null || ls demo/*.out 2>/dev/null | head -1)
+[ -x "$DEMO" ] || { echo "demo did not build"; tail -5 $WT/.demo_build.log; exit 2; }
+(cd demo && timeout 900 ./$(basename $DEMO) > $WT/.demo_with.log 2>&1); RC1=$?
+echo "WITH PATCH demo exit=$RC1 : $(tail -1 $WT/.demo_with.log)"
 git checkout -q -- src include
-cmake --build _build -j16 2>&1 | tail -1
-(cd demo && bash build.sh > /tmp/demo_build.log 2>&1)
-(cd demo && timeout 900 ./$(basename $DEMO) > /tmp/demo_without.log 2>&1); RC2=$?
-echo "WITHOUT PATCH demo exit=$RC2 : $(tail -1 /tmp/demo_without.log)"
+cmake --build _build -j6 2>&1 | tail -1
+(cd demo && bash build.sh > $WT/.demo_build.log 2>&1)
+(cd demo && timeout 900 ./$(basename $DEMO) > $WT/.demo_without.log 2>&1); RC2=$?
+echo "WITHOUT PATCH demo exit=$RC2 : $(tail -1 $WT/.demo_without.log)"
 if echo "$T" | grep -q "100% tests passed" && [ $RC1 -ne 0 ] && [ $RC2 -eq 0 ]; then
   D=/verif/seeded/$NAME; mkdir -p $D/demo
   cp patch.diff $D/patch.diff; cp demo/demo.cpp demo/build.sh $D/demo/ 2>/dev/null; cp SEEDED.md $D/SEEDED.md 2>/dev/null
-  tail -3 /tmp/demo_with.log > $D/demo_with_patch.txt; tail -3 /tmp/demo_without.log > $D/demo_without_patch.txt
+  tail -3 $WT/.demo_with.log > $D/demo_with_patch.txt; tail -3 $WT/.demo_without.log > $D/demo_without_patch.txt
   echo "CONFIRMED -> $D"
 else
   echo "NOT CONFIRMED"
